@@ -375,6 +375,15 @@ class Stub(object):
     def __repr__(self):
         return self._p
 
+    def __iter__(self):   # iterable as empty (otherwise __getitem__ makes iteration endless)
+        return iter(())
+
+    def keys(self):
+        return []
+
+    def __contains__(self, x):
+        return False
+
 
 class NS(dict):
     def __missing__(self, k):
